@@ -428,7 +428,13 @@ def nested_def_precedence(ctx):
     oth = pn(un, 1)
     ok = P.has(un, "$x = SetLikeDict(**self)\n$x.update(%s)\nreturn $x" % oth) or P.has(un, "$x = SetLikeDict(self)\n$x.update(%s)\nreturn $x" % oth) or P.has(un, "return SetLikeDict({**self, **%s})" % oth)
     ctx.check(ok, "union.second-wins", db.where(un), "SetLikeDict.union no longer lets the values of its argument take precedence over those of the receiver", "copy of self updated with the argument")
-    df = db.func("codegen._Identifiers.defs")
-    ctx.check(P.has(df, "return set(self.topleveldefs.union(self.closuredefs).values())"), "defs.closure-over-toplevel", db.where(df), "the defs visible in a scope are not `topleveldefs.union(closuredefs)`: a nested def no longer shadows the top-level def of the same name (calling it by name writes the other def's body)", "topleveldefs.union(closuredefs): nested defs win")
+    # wherever the defs of a scope are put together (the `defs` property, or its body where a refactoring moved it)
+    unions = [c_ for c_ in ast.walk(db.mod("codegen").tree) if isinstance(c_, ast.Call) and isinstance(c_.func, ast.Attribute) and c_.func.attr in ("union", "update") and len(c_.args) == 1
+              and {src(c_.func.value).rsplit(".", 1)[-1], src(c_.args[0]).rsplit(".", 1)[-1]} == {"topleveldefs", "closuredefs"}]
+    ors = [b_ for b_ in ast.walk(db.mod("codegen").tree) if isinstance(b_, ast.BinOp) and isinstance(b_.op, ast.BitOr) and {src(b_.left).rsplit(".", 1)[-1], src(b_.right).rsplit(".", 1)[-1]} == {"topleveldefs", "closuredefs"}]
+    ctx.require(unions or ors, "codegen: the union of top-level and closure defs was not found (anchor)")
+    df = unions[0] if unions else ors[0]
+    good_ = all(src(c_.func.value).endswith("topleveldefs") and src(c_.args[0]).endswith("closuredefs") for c_ in unions) and all(src(b_.left).endswith("topleveldefs") for b_ in ors)
+    ctx.check(good_, "defs.closure-over-toplevel", db.where(df), "the defs visible in a scope are not `topleveldefs.union(closuredefs)`: a nested def no longer shadows the top-level def of the same name (calling it by name writes the other def's body)", "topleveldefs.union(closuredefs): nested defs win")
     wt = db.func("codegen._GenerateRenderMethod.write_toplevel")
     ctx.check(P.has(wt, "$m.topleveldefs = $mit.union($main.topleveldefs)"), "module.toplevel", db.where(wt), "module-level identifiers do not take over the main body's top-level defs", "module topleveldefs = union with the body's")
